@@ -1440,3 +1440,105 @@ func (g *Gen) saveDiffProgram() *GProgram {
 	g.prog.Stmts = append(g.prog.Stmts, &GStmt{Kind: StSend, Sent: sent, Src: src, Dst: dstAcct("c")})
 	return g.prog
 }
+
+// sweepDebt: `send [A *]` from an account that holds nothing or owes (no posting, nothing changes), then the
+// same account is drawn with a bounded overdraft: the debt is still there.
+func (g *Gen) sweepDebtProgram() *GProgram {
+	asset := "USD"
+	g.asset = asset
+	g.smallBalances([]string{"b"}, asset, 20)
+	switch g.r.Intn(4) {
+	case 0:
+		g.bal["a"] = map[string]*big.Int{asset: bi(0)}
+	case 1:
+		g.bal["a"] = map[string]*big.Int{asset: bi(int64(1 + g.r.Intn(20)))}
+	default:
+		g.bal["a"] = map[string]*big.Int{asset: bi(-int64(1 + g.r.Intn(60)))}
+	}
+	sweepDst := dstAcct("c")
+	if g.r.Chance(1, 4) {
+		sweepDst = &GDest{Kind: DstInorder, Clauses: []*GClause{{Cap: lit(asset, bi(5)), To: &GKod{To: dstAcct("c")}}}, Remaining: &GKod{To: dstAcct("d")}}
+	}
+	g.prog.Stmts = append(g.prog.Stmts, &GStmt{Kind: StSend, Sent: &GSent{All: true, E: &GExpr{Kind: XAsset, S: asset}}, Src: srcAcct("a"), Dst: sweepDst})
+	if g.r.Chance(1, 4) {
+		g.prog.Stmts = append(g.prog.Stmts, &GStmt{Kind: StSend, Sent: &GSent{E: lit(asset, bi(int64(g.r.Intn(15))))}, Src: srcAcct("world"), Dst: dstAcct("a")})
+	}
+	grant := int64(20 + g.r.Intn(80))
+	n := bi(grant - 10 + int64(g.r.Intn(40)))
+	var src *GSource = &GSource{Kind: SrcInorder, Subs: []*GSource{{Kind: SrcOverdraft, E: acct("a"), Bounded: lit(asset, bi(grant))}, srcAcct("world")}}
+	sent := &GSent{E: lit(asset, n)}
+	switch g.r.Intn(4) {
+	case 0:
+		src = &GSource{Kind: SrcOverdraft, E: acct("a"), Bounded: lit(asset, bi(grant))}
+	case 1:
+		src, sent = &GSource{Kind: SrcOverdraft, E: acct("a"), Bounded: lit(asset, bi(grant))}, &GSent{All: true, E: &GExpr{Kind: XAsset, S: asset}}
+	}
+	g.prog.Stmts = append(g.prog.Stmts, &GStmt{Kind: StSend, Sent: sent, Src: src, Dst: dstAcct("e-x_1")})
+	return g.prog
+}
+
+// nestedDebt: an account that owes, with a bounded overdraft, INSIDE a nested block or a nested allotment that
+// also holds @world (or an unbounded overdraft), followed by another source: whatever the nesting, the balance of
+// every account that may be drawn is known before it is drawn.
+func (g *Gen) nestedDebtProgram() *GProgram {
+	asset := "USD"
+	g.asset = asset
+	debt, grant := int64(5+g.r.Intn(90)), int64(20+g.r.Intn(100))
+	g.bal["a"] = map[string]*big.Int{asset: bi(-debt)}
+	if g.r.Chance(1, 5) {
+		g.bal["a"] = map[string]*big.Int{asset: bi(int64(g.r.Intn(30)))}
+	}
+	g.bal["c"] = map[string]*big.Int{asset: bi(int64(100 + g.r.Intn(400)))}
+	over := &GSource{Kind: SrcOverdraft, E: acct("a"), Bounded: lit(asset, bi(grant))}
+	var never *GSource = srcAcct("world")
+	if g.r.Chance(1, 3) {
+		never = &GSource{Kind: SrcOverdraft, E: acct("b")}
+	}
+	var inner *GSource
+	if g.r.Chance(1, 3) {
+		inner = &GSource{Kind: SrcAllot, Items: []*GSrcItem{{Allot: &GAllot{Kind: AlRatio, E: g.ratio(bi(1), bi(2))}, From: over}, {Allot: &GAllot{Kind: AlRatio, E: g.ratio(bi(1), bi(2))}, From: never}}}
+	} else {
+		inner = &GSource{Kind: SrcInorder, Subs: []*GSource{over, never}}
+		if g.r.Chance(1, 3) {
+			inner = &GSource{Kind: SrcInorder, Subs: []*GSource{{Kind: SrcInorder, Subs: []*GSource{over}}, never}}
+		}
+	}
+	outer := &GSource{Kind: SrcInorder, Subs: []*GSource{inner, srcAcct("c")}}
+	if g.r.Chance(1, 4) {
+		outer = &GSource{Kind: SrcInorder, Subs: []*GSource{srcAcct("b"), inner, srcAcct("c")}}
+		g.bal["b"] = map[string]*big.Int{asset: bi(int64(g.r.Intn(10)))}
+	}
+	n := bi(grant - 10 + int64(g.r.Intn(60)))
+	g.prog.Stmts = append(g.prog.Stmts, &GStmt{Kind: StSend, Sent: &GSent{E: lit(asset, n)}, Src: outer, Dst: dstAcct("e-x_1")})
+	return g.prog
+}
+
+// negVarSend: the amount sent is a monetary VARIABLE (given by the caller, or read from metadata) that may be
+// negative or zero: `send $amount (...)` is refused like `send [A -5]` is.
+func (g *Gen) negVarSendProgram() *GProgram {
+	asset := g.r.Pick([]string{"USD", "USD/2", "EUR"})
+	g.asset = asset
+	g.smallBalances([]string{"a", "b"}, asset, 40)
+	n := int64(g.r.Intn(60)) - 40
+	raw := fmt.Sprintf("%s %d", asset, n)
+	if g.r.Chance(1, 3) {
+		if g.meta["a"] == nil {
+			g.meta["a"] = map[string]string{}
+		}
+		g.meta["a"]["due"] = raw
+		g.prog.Vars = append(g.prog.Vars, &GVarDecl{Type: "monetary", Name: "amount", Origin: &GFnCall{Name: "meta", Args: []*GExpr{acct("a"), {Kind: XString, S: "due"}}}})
+	} else {
+		g.prog.Vars = append(g.prog.Vars, &GVarDecl{Type: "monetary", Name: "amount"})
+		g.rawVars["amount"] = raw
+	}
+	src := []*GSource{srcAcct("world"), srcAcct("a"), {Kind: SrcInorder, Subs: []*GSource{srcAcct("a"), srcAcct("world")}}, {Kind: SrcOverdraft, E: acct("b")}}[g.r.Intn(4)]
+	var dst *GDest = dstAcct("c")
+	if g.r.Chance(1, 3) {
+		dst = &GDest{Kind: DstInorder, Clauses: []*GClause{{Cap: lit(asset, bi(5)), To: &GKod{To: dstAcct("c")}}}, Remaining: &GKod{To: dstAcct("d")}}
+	}
+	if g.r.Chance(1, 3) {
+		g.prog.Stmts = append(g.prog.Stmts, &GStmt{Kind: StSend, Sent: &GSent{E: lit(asset, bi(int64(g.r.Intn(9))))}, Src: srcAcct("world"), Dst: dstAcct("b")})
+	}
+	g.prog.Stmts = append(g.prog.Stmts, &GStmt{Kind: StSend, Sent: &GSent{E: &GExpr{Kind: XVar, S: "amount"}}, Src: src, Dst: dst})
+	return g.prog
+}
